@@ -2,6 +2,7 @@ import GV.Props.C01
 import GV.Props.C02
 import GV.Props.C12
 import GV.Props.C13
+import GV.Props.C14
 import GV.Props.C15
 import GV.Props.C16
 import GV.Props.C20
